@@ -64,7 +64,19 @@ def input_len(T, cfg, slack=6, cap=40):
         return 8
     if s is not None:
         return min(cap, s + 2)
+    if count_kind(T, ("leb",)) >= 2:
+        slack = min(slack, 4)   # every LEB128 member forks once per input byte: keep the product of two of them small
     return min(cap, min_size(T, cfg) + slack)
+
+
+def count_kind(T, kinds):
+    if T[0] in kinds:
+        return 1
+    if T[0] in ("arr", "ptr"):
+        return count_kind(T[1], kinds)
+    if T[0] in ("struct", "union"):
+        return sum(count_kind(f[1], kinds) for f in T[2])
+    return 0
 
 
 def has_kind(T, kinds):
